@@ -3,8 +3,12 @@
   One request line → exactly one answer line.  Requests: `<function> <int args…>` (bools as 0/1),
   `const <name>`, `tab <table> <index>`.  Answers: decimal integers (bools as 0/1), `tc` answers
   `<timed> <soft> <hard>`; anything unparsable answers `err`.
+  `goargs <stm 0|1> <Ponder option 0|1> <debug 0|1> <arg>*` runs the model of `handleGo`'s argument loop
+  (`Model/UciGo.lean`) on the argument tokens (arbitrary strings without blanks) and answers
+  `panic` | `missing` | `call depth=<d|-> nodes=<n|-> soft=<t|-> ponder=<0|1> debug=<0|1> stop=<0|1> out=<0|1>`.
 -/
 import ChessVerif.Gen.Funcs
+import ChessVerif.Model.UciGo
 open ChessVerif ChessVerif.Gen.Funcs
 
 def b2s (b : Bool) : String := if b then "1" else "0"
@@ -64,6 +68,10 @@ def answer (line : String) : String :=
       match i.toInt? with
       | some iv => (match tabVal n iv with | some v => toString v | none => "err")
       | none => "err"
+  | "goargs" :: stm :: p :: d :: args =>
+      match stm.toInt?, p.toInt?, d.toInt? with
+      | some stm, some p, some d => (UciGo.handleGo stm (i2b p) (i2b d) args).render
+      | _, _, _ => "err"
   | cmd :: args =>
       match args.mapM String.toInt? with
       | some xs => callFn cmd xs
